@@ -277,7 +277,7 @@ def judge_sentences(ctx, cases, res, prop):
         else:
             if acc and dv:
                 stats["derivations"] += 1
-                if dv != "yes":
+                if dv == "no":
                     ctx.violation("derivation", "spec %r, command line %r: the bound values %r are not a derivation"
                                   % (c["root"]["spec"], c["argv"], a["values"]), case=c, impl=a["values"])
     return stats
